@@ -4,6 +4,7 @@ Quantification: all records (`Cov.WF` is what the Rust types guarantee: unique k
 all permutations, all parenthesisations (`Tree`).
 -/
 import GrcovModel.Merge
+import GrcovModel.Lemmas.MergeNary
 namespace Grcov.Props.C01
 open Grcov AList
 
@@ -188,6 +189,49 @@ theorem C01_monotone_functions (a b : Cov) (hb : b.WF) (n : Name) (f : Fn)
 
 /-- results stay inside u64 and keys stay unique: the `Nat` model *is* the u64 behaviour -/
 theorem C01_wf_closed (a b : Cov) (ha : a.WF) (hb : b.WF) : (merge a b).WF := merge_wf a b ha hb
+
+/-- **N inputs, branches.** However the inputs are ordered and grouped, the reported vector of a
+line has the length of the longest input vector for that line, and slot `i` is taken iff some
+input reports it taken. -/
+theorem C01_branches_nary (t : Tree Cov) (h : ∀ c ∈ t.leaves, c.WF) (l : Nat) (v : List Bool)
+    (hv : get? t.eval.branches l = some v) :
+    v.length = (((t.leaves.map fun c => get? c.branches l).filterMap id).map List.length).foldr max 0 ∧
+    ∀ i, v.getD i false
+      = ((t.leaves.map fun c => get? c.branches l).filterMap id).any (fun u => u.getD i false) := by
+  rw [Tree.eval_branches t h] at hv
+  exact den_zipOr_closed _ v hv
+
+/-- a line has a branch vector in the aggregate iff some input has one for it -/
+theorem C01_branches_present_iff (t : Tree Cov) (h : ∀ c ∈ t.leaves, c.WF) (l : Nat) :
+    (get? t.eval.branches l).isSome ↔ ∃ c ∈ t.leaves, (get? c.branches l).isSome := by
+  rw [Tree.eval_branches t h]
+  generalize t.leaves = cs
+  induction cs with
+  | nil => simp [den]
+  | cons c cs ih =>
+    have e : den zipOr ((c :: cs).map fun c => get? c.branches l)
+        = optCombine zipOr (get? c.branches l) (den zipOr (cs.map fun c => get? c.branches l)) := rfl
+    rw [e]
+    cases hc : get? c.branches l <;> cases hd : den zipOr (cs.map fun c => get? c.branches l) <;>
+      simp [optCombine, hc, hd] at ih ⊢ <;> simp_all
+
+/-- **N inputs, functions.** A function is reported iff some input names it, and it is reported
+executed iff some input reports it executed – for every order and grouping of the inputs. -/
+theorem C01_functions_nary (t : Tree Cov) (h : ∀ c ∈ t.leaves, c.WF) (n : Name) :
+    ((get? t.eval.functions n).isSome ↔ ∃ c ∈ t.leaves, (get? c.functions n).isSome) ∧
+    ∀ f, get? t.eval.functions n = some f →
+      f.executed = ((t.leaves.map fun c => get? c.functions n).filterMap id).any (·.executed) := by
+  rw [Tree.eval_functions t h]
+  have := den_fnMerge_closed (t.leaves.map fun c => get? c.functions n)
+  refine ⟨?_, this.2⟩
+  rw [this.1]
+  constructor
+  · rintro ⟨x, hx, hs⟩
+    simp only [List.mem_map] at hx
+    obtain ⟨c, hc, rfl⟩ := hx
+    exact ⟨c, hc, hs⟩
+  · rintro ⟨c, hc, hs⟩
+    exact ⟨_, List.mem_map.mpr ⟨c, hc, rfl⟩, hs⟩
 
 /-! Non-vacuity: concrete records that satisfy the hypotheses and exercise saturation, a shorter
 right-hand branch vector and a start-line disagreement. -/
